@@ -7,6 +7,7 @@ import (
 	"bytes"
 	"encoding/json"
 	"fmt"
+	"io"
 	"reflect"
 	"sort"
 	"time"
@@ -39,6 +40,49 @@ type Item struct {
 	Seq   uint32   `json:"seq,omitempty"`
 	Off   int64    `json:"off,omitempty"`
 	Bops  []BOp    `json:"bops,omitempty"`
+	// how the reader hands the bytes to ReadPacket: in pieces ending at these offsets, and before every piece
+	// but the first another datagram (Inter) is decoded completely (a second source decoding "at the same time",
+	// as a deterministic schedule).  Decoding must be a function of the byte string alone.
+	Cuts  []int `json:"cuts,omitempty"`
+	Inter []int `json:"inter,omitempty"`
+}
+
+// the delivery plan of the item being run
+var curCuts []int
+var curInter []byte
+
+// planReader delivers b in pieces; between pieces it decodes curInter
+type planReader struct {
+	b     []byte
+	pos   int
+	calls int
+	cuts  []int
+	inter []byte
+}
+
+func (r *planReader) Read(p []byte) (int, error) {
+	if r.calls > 0 && len(r.inter) > 0 {
+		func() {
+			defer func() { recover() }()
+			packets.ReadPacket(bytes.NewReader(r.inter))
+		}()
+	}
+	r.calls++
+	if len(p) == 0 {
+		return 0, nil
+	}
+	if r.pos >= len(r.b) {
+		return 0, io.EOF
+	}
+	end := len(r.b)
+	for _, c := range r.cuts {
+		if c > r.pos && c < end {
+			end = c
+		}
+	}
+	n := copy(p, r.b[r.pos:end])
+	r.pos += n
+	return n, nil
 }
 
 type Case struct {
@@ -233,19 +277,27 @@ func decode(b []byte, reads []int64, pret [][2]int, tags map[string]bool) (term 
 }
 
 func decodeOpt(b []byte, reads []int64, pret [][2]int, tags map[string]bool, lean bool) (term string, summary string) {
-	rdr := bytes.NewReader(b)
 	var p *packets.Packet
 	var err error
 	panicked := false
+	consumed := 0
 	func() {
 		defer func() {
 			if e := recover(); e != nil {
 				panicked = true
 			}
 		}()
-		p, err = packets.ReadPacket(rdr)
+		if len(curCuts) > 0 || len(curInter) > 0 {
+			tags["reader-in-pieces-interleaved"] = true
+			rdr := &planReader{b: b, cuts: curCuts, inter: curInter}
+			defer func() { consumed = rdr.pos }()
+			p, err = packets.ReadPacket(rdr)
+		} else {
+			rdr := bytes.NewReader(b)
+			defer func() { consumed = len(b) - rdr.Len() }()
+			p, err = packets.ReadPacket(rdr)
+		}
 	}()
-	consumed := len(b) - rdr.Len()
 	if panicked {
 		tags["decode-panic"] = true
 		return "ODPanic", "panic"
@@ -528,6 +580,7 @@ func runCase(c Case) lib.Result {
 	var terms []string
 	var outs []itemOut
 	for _, it := range c.Ops {
+		curCuts, curInter = it.Cuts, toBytes(it.Inter)
 		var term string
 		var out itemOut
 		var nt bool
